@@ -52,11 +52,11 @@ BAD = {
              ("args_int", '{command = "echo", args = 1}'), ("env_int", '{command = "echo@U@", env = 1}'),
              ("late_bad_arg", '{command = "echo", env = {X = "@U@"}, args = ["ok", 1.5, [1]]}')],
 }
-SRC_NAMES = [("plain", "p.ucg"), ("dotted", "conf.prod.ucg"), ("subdir", "sub/x.ucg"), ("dash", "my-app_1.ucg")]
+SRC_NAMES = [("plain", "p.ucg"), ("dotted", "conf.prod.ucg"), ("subdir", "sub/x.ucg"), ("dash", "my-app_1.ucg"), ("symlink", "site.ucg")]
 FAULT_KINDS = ["enospc", "eisdir", "efbig"]
 PROBES = ["failed_conversion_over_existing_artifact", "failed_conversion_without_artifact", "streaming_converter_failed_late",
           "torn_first_byte", "torn_middle", "torn_last_byte", "success_after_failure", "two_outs", "error_after_out",
-          "foreign_preexisting", "built_from_other_cwd", "built_through_directory_walk", "built_through_dotslash"]
+          "foreign_preexisting", "built_from_other_cwd", "built_through_directory_walk", "built_through_dotslash", "source_is_symlink"]
 
 TIERS = {
     "quick": {"runs": 640, "wall_cap": 200},
@@ -98,10 +98,15 @@ def generate(rng, tier, idx):
     fixed = enum_worlds(tier)
     if idx < len(fixed):
         return fixed[idx]
-    name_cls, src = rng.weighted([(SRC_NAMES[0], 5), (SRC_NAMES[1], 2), (SRC_NAMES[2], 2), (SRC_NAMES[3], 1)])
+    name_cls, src = rng.weighted([(SRC_NAMES[0], 5), (SRC_NAMES[1], 2), (SRC_NAMES[2], 2), (SRC_NAMES[3], 1), (SRC_NAMES[4], 1)])
     w = {"src": src, "dir": "proj", "abs": rng.chance(25), "cwd": rng.weighted([("proj", 6), ("", 2), ("elsewhere", 2)]),
          "how": rng.weighted([("file", 7), ("dotslash", 1), ("walk_noargs", 1), ("walk_r", 1), ("walk_dir_arg", 1)]),
          "pre": rng.weighted([("none", 6), ("foreign", 2)]), "others": [], "steps": []}
+    if name_cls == "symlink":
+        # the file handed to the compiler is a symbolic link to a differently named file in another directory;
+        # the artifact is named like the file that was built, and sits next to it
+        w["src_symlink"] = "shared/base.ucg"
+        w["how"] = "file"
     if rng.chance(50):
         w["others"].append(["proj/keep.txt", "keep-" + rng.token(6)])
     if rng.chance(30):
@@ -259,8 +264,14 @@ def execute(world, sb, res):
             res.probe("foreign_preexisting")
 
     had_failure = False
+    link_target = world.get("src_symlink")
+    if link_target:
+        real_rel = world["dir"] + "/" + link_target
+        sb.write(real_rel, "")
+        sb.symlink(src_rel, os.path.relpath(sb.p(real_rel), os.path.dirname(sb.p(src_rel))))
+        res.probe("source_is_symlink")
     for si, st in enumerate(steps):
-        sb.write(src_rel, program(st))
+        sb.write(real_rel if link_target else src_rel, program(st))
         outs = st["outs"]
         refs = [ref.get(o["conv"], o["expr"]) for o in outs]
         if res.harness_error:
@@ -457,8 +468,12 @@ def shrink_candidates(world):
         yield dict(w, abs=False)
     if w["cwd"] != w["dir"]:
         yield dict(w, cwd=w["dir"])
-    if w["src"] != "p.ucg":
+    if w["src"] != "p.ucg" and not w.get("src_symlink"):
         yield dict(w, src="p.ucg")
+    if w.get("src_symlink"):
+        c = dict(w, src="p.ucg")
+        c.pop("src_symlink")
+        yield c
     for i, st in enumerate(w["steps"]):
         if st.get("fault"):
             yield dict(w, steps=w["steps"][:i] + [dict(st, fault=None)] + w["steps"][i + 1:])
